@@ -18,6 +18,9 @@ VARIANTS_QUICK = {
     'gxx_ordered_userkey_incl_ref': ('g++', 'c++14', ['VH_KEY=3', 'VH_ARGMODE=2']),
     'clang_hashed_userkey_incl_byvalue': ('clang++', 'c++20', ['VH_KEY=4', 'VH_ARGMODE=1', 'VH_POLICY=2']),
     'gxx_enum_excl': ('g++', 'c++20', ['VH_KEY=2', 'VH_ARGMODE=0', 'VH_MAP=1']),
+    # a getEvent policy that returns a reference to the key argument (not a copy)
+    'gxx_string_incl_byvalue_refpolicy': ('g++', 'c++17', ['VH_KEY=1', 'VH_ARGMODE=1', 'VH_GETEVENT=1']),
+    'clang_string_incl_byvalue_refpolicy': ('clang++', 'c++14', ['VH_KEY=1', 'VH_ARGMODE=1', 'VH_GETEVENT=1', 'VH_POLICY=1']),
 }
 VARIANTS_MORE = {
     'clang_string_excl': ('clang++', 'c++11', ['VH_KEY=1', 'VH_ARGMODE=0', 'VH_MAP=1']),
